@@ -1,11 +1,12 @@
 (* Props_C15.v — C15: dissemination accounting for cluster updates. *)
 From Foca Require Import Laws BcastM FocaM L_Bcast L_Fill L_Members L_MembersInv Inv Reach L_Wire L_Dissem L_BacklogOps.
+From Foca Require Import L_TxAccount L_FanOut L_SendTx L_Evidence L_TxPass.
 From Coq Require Import Relations.
 From Coq Require Import Sorted.
 
 Section C15.
 Context {Id Addr : Type} {IO : IdOps Id Addr} {CO : CodecOps Id} {HO : HandlerOps Id}.
-Context {IL : IdLaws IO} {EL : @ExtraLaws Id Addr IO CO}.
+Context {IL : IdLaws IO} {EL : @ExtraLaws Id Addr IO CO} {CL : CodecLaws CO}.
 
 (* every reachable state: at most one pending update per address, each with at least one
    transmission left and carrying exactly an encoded member *)
@@ -90,6 +91,80 @@ Theorem C15_backlog_changes_only_so (rnd : oracle) (f : @foca Id Addr HO) (i : @
   clos_refl_trans _ ustep (updates f) (updates (fst (fst (fst (step rnd f i))))).
 Proof. exact (proj1 (step_backlogs rnd f i)). Qed.
 
+(* TRANSMISSION ACCOUNTING.  total l = the transmissions still owed by a backlog.  With
+   C15_backlog_changes_only_so (the backlog changes only by accept and fill, along every call) these
+   two equations are the whole ledger: a fill that writes n updates lowers the total by exactly n - a
+   written update costs exactly one transmission and nothing else changes the total -, and accepting an
+   update raises it by at most max_transmissions (it replaces whatever was pending for that address) *)
+Theorem C15_total_meaning (l : backlog Addr) (e : @entry Addr) :
+  total (@nil (@entry Addr)) = 0 /\ total (e :: l) = e_tx e + total l.
+Proof. split; reflexivity. Qed.
+
+Theorem C15_fill_costs_one_transmission_each (hint : list N) (l : backlog Addr) (room mx : N) w n kept :
+  fill_gen Addr 0 hint l room mx = (w, n, kept, None) -> total kept + n = total l.
+Proof. exact (fill_total Addr 0 hint l room mx w n kept). Qed.
+
+Theorem C15_accept_adds_at_most_max_transmissions (l : backlog Addr) (k : Addr) (d : bytes) (mx : N) :
+  total (add_or_replace Addr addr_eqb l k d mx) <= total l + mx.
+Proof. exact (add_or_replace_total Addr addr_eqb l k d mx). Qed.
+
+(* THE LEDGER ALONG EVERY CALL AND EVERY HISTORY.  carried es = the sum of the count fields (as the
+   receiver reads them) of the datagrams among the effects that take their updates from the backlog;
+   credit i = the number of updates call i may accept (k + 2 for a datagram with k member updates: its
+   sender, its updates, the previous identity on a rejoin; the length of the list for apply_many; 1 for
+   a probe or suspicion timer, leave_cluster and change_identity; 0 otherwise).  One datagram's count
+   field is exactly what the backlog lost (C15_datagram_count_is_what_left_the_backlog); hence for every
+   call: owed afterwards + carried <= owed before + max_transmissions * credit; and over any history
+   from a fresh instance the number of update transmissions is at most the sum of max_transmissions
+   over the updates accepted - every transmission is paid for by an acceptance. *)
+Theorem C15_ledger_terms (es : list (effect Id)) (e : effect Id) (b : bytes) (msg : message Id) (i : @input Id) (t : timer Id) :
+  carried (@nil (effect Id)) = 0
+  /\ carried (e :: es) = (match e with Send _ d => count_field d + carried es | _ => carried es end)
+  /\ count_field b = (match dec_hdr b with
+                     | Some (h, rest) => if takes (h_msg h) then match get_u16 rest with Some (n, _) => n | None => 0 end else 0
+                     | None => 0
+                     end)
+  /\ takes msg = (needs_piggyback msg && negb (piggyback_only_active msg))
+  /\ credit i = (match i with
+                | IData d => updates_in d + 2
+                | ITimer t0 => timer_credit t0
+                | IApplyMany l _ => len l
+                | ILeave | IChangeIdentity _ => 1
+                | _ => 0
+                end)
+  /\ timer_credit t = (match t with TProbeRandomMember _ | TChangeSuspectToDown _ _ _ => 1 | _ => 0 end).
+Proof. repeat split. Qed.
+
+Theorem C15_datagram_count_is_what_left_the_backlog (rnd : oracle) (dst : Id) (msg : message Id) (s : @rs Id Addr HO) :
+  let s' := fst (send_message rnd dst msg s) in
+  cfg (st s') = cfg (st s)
+  /\ exists new, out s' = out s ++ new
+       /\ match snd (send_message rnd dst msg s) with
+          | ROk _ => exists b, new = [Send dst b] /\ total (updates (st s')) + count_field b = total (updates (st s))
+          | RErr _ => new = [] /\ updates (st s') = updates (st s)
+          | RPanic _ => new = [] /\ total (updates (st s')) <= total (updates (st s))
+          end.
+Proof. exact (send_message_tx rnd dst msg s). Qed.
+
+Theorem C15_ledger_of_one_call (rnd : oracle) (f : @foca Id Addr HO) (i : @input Id) :
+  let '(f', es, _, _) := step rnd f i in
+  total (updates f') + carried es <= total (updates f) + max_transmissions (cfg f) * credit i.
+Proof. exact (step_ledger rnd f i). Qed.
+
+Theorem C15_ledger_of_a_history (rnd : oracle) (l : list (@input Id)) (f : @foca Id Addr HO) :
+  total (updates (run_calls rnd f l)) + carried_hist rnd f l <= total (updates f) + credit_hist rnd f l.
+Proof. exact (history_ledger rnd l f). Qed.
+
+Theorem C15_every_transmission_is_paid_for (rnd : oracle) (id0 : Id) (c0 : config) (h0 : hstate) (l : list (@input Id)) :
+  carried_hist rnd (@foca_init Id Addr HO id0 c0 h0) l <= credit_hist rnd (@foca_init Id Addr HO id0 c0 h0) l.
+Proof. exact (fresh_history_ledger rnd id0 c0 h0 l). Qed.
+
+Theorem C15_history_terms (rnd : oracle) (f : @foca Id Addr HO) (i : @input Id) (l : list (@input Id)) :
+  carried_hist rnd f [] = 0 /\ credit_hist rnd f [] = 0
+  /\ carried_hist rnd f (i :: l) = carried (snd (fst (fst (step rnd f i)))) + carried_hist rnd (fst (fst (fst (step rnd f i)))) l
+  /\ credit_hist rnd f (i :: l) = max_transmissions (cfg f) * credit i + credit_hist rnd (fst (fst (fst (step rnd f i)))) l.
+Proof. repeat split. Qed.
+
 End C15.
 
 Print Assumptions C15_backlog_operations.
@@ -101,3 +176,12 @@ Print Assumptions C15_no_fitting_update_omitted.
 Print Assumptions C15_tx_bound.
 Print Assumptions C15_non_piggyback_consume_nothing.
 Print Assumptions C15_no_broadcast_untouched.
+Print Assumptions C15_total_meaning.
+Print Assumptions C15_fill_costs_one_transmission_each.
+Print Assumptions C15_accept_adds_at_most_max_transmissions.
+Print Assumptions C15_ledger_terms.
+Print Assumptions C15_datagram_count_is_what_left_the_backlog.
+Print Assumptions C15_ledger_of_one_call.
+Print Assumptions C15_ledger_of_a_history.
+Print Assumptions C15_every_transmission_is_paid_for.
+Print Assumptions C15_history_terms.
